@@ -313,7 +313,37 @@ def entry_form_cases(ctx, n):
                         f"form{i}")
 
 
+def many_components_corpus(ctx):
+    """zero-TP scenes with 255 / 256 / 257 / 300 isolated one-pixel components on one side (semantic input, so the instance maps are
+    made by the library and their dtype is its choice) and one disjoint blob on the other: fp / fn are the component counts"""
+    rng = ctx.rng
+    for n in ((256, 300) if ctx.quick else (255, 256, 257, 300, 399)):
+        many = np.zeros((44, 42), np.uint8)
+        k = 0
+        for i in range(0, 38, 2):
+            for j in range(0, 42, 2):
+                if k < n:
+                    many[i, j] = 1 + (k % 3)
+                    k += 1
+        n_many = int((many != 0).sum())
+        blob = np.zeros((44, 42), np.uint8)
+        blob[40:43, 3:9] = 1
+        hnd = rand_handler(rng, ["IOU", "DSC"])
+        for backend in (None, "scipy"):
+            cfg = E.mk_cfg("SEMANTIC", ["IOU", "DSC"], matcher=E.naive("IOU", (1, 2)), handler=hnd, backend=backend)
+            for pred, ref in ((many, blob), (blob, many)):
+                ctx.count("zero_tp_with_hundreds_of_components")
+                s = one_case(ctx, pred, ref, cfg, "NORMAL", f"corpus.many-components-{n_many}")
+                want = (n_many, 1) if pred is many else (1, n_many)
+                if isinstance(s, dict) and (s["num_pred_instances"], s["num_ref_instances"]) != want:
+                    inp = {"shape": list(pred.shape), "pred": gen.arr_json(pred), "ref": gen.arr_json(ref), "cfg": cfg, "scenario": "NORMAL",
+                           "src": "corpus.many-components", "history": []}
+                    ctx.violation(f"C08 violated: {want[0]} isolated prediction and {want[1]} reference components without a match are reported as "
+                                  f"{s['num_pred_instances']} and {s['num_ref_instances']} instances (fp = {s['fp']}, fn = {s['fn']})", inp, impl=s, key={"kind": "zero-tp"})
+
+
 def run(ctx):
+    many_components_corpus(ctx)
     entry_form_cases(ctx, ctx.scale(150, 1500))
     single_group_cases(ctx, ctx.scale(40, 400))
     run_cases(ctx, ctx.scale(900, 9000), "rand")
